@@ -440,6 +440,29 @@ Definition put_aval (v : aval) : val :=
 Definition put_attrs (a : attrs) : val :=
   VL [VI 7; VL (map (fun kv => VL [VT (fst kv); put_aval (snd kv)]) a)].
 
+(* the property's normalisation clause for the public normalisers traversal_path_info / traversal_path: when the
+   text decodes (WSGI latin-1 bytes read as UTF-8; for traversal_path after percent-decoding an ASCII str) the result
+   is the normalised segment list; which exception a malformed text raises is not the property's business *)
+Definition spec_traversal_path_info (p : text) : option (list text) :=
+  match decode_path_info p with Ok d => Some (split_path_info d) | _ => None end.
+Definition spec_traversal_path (p : text) : option (list text) :=
+  if is_ascii p then spec_traversal_path_info (Percent.unquote p) else None.
+Definition put_spec_tuple (o : option (list text)) : val :=
+  match o with Some l => VL [VI 3; vtexts l] | None => VL [] end.
+
+(* ---- the match dictionary a route hands to the traverser (urldispatch `*name` remainders, the traverse= route
+   option = pyramid.predicates.TraversePredicate: traversal_path(generate(pattern, match))).  A value is either a
+   str captured by a {name} placeholder (as captured) or the tuple split_path_info('/' + '/'.join(parts)) where
+   parts are the decoded texts the value is made from (the remainder; the captures the traverse= pattern names). *)
+Definition route_md_value (v : val) : option mval :=
+  match v with
+  | VT s => Some (MStr s)
+  | VL _ => option_map (fun parts => MTuple (split_path_info (slash :: join slash_text parts))) (get_texts v)
+  | VI _ => None
+  end.
+Definition put_mval (m : mval) : val := match m with MStr s => VT s | MTuple l => vtexts l end.
+Definition put_opt_mval (o : option mval) : val := match o with Some m => VL [put_mval m] | None => VL [] end.
+
 (* one operation of a history -> [model answer; spec answer (or [] when the
    property adds nothing beyond the model)] *)
 Definition run_op (tree : res) (v : val) : option val :=
@@ -454,9 +477,9 @@ Definition run_op (tree : res) (v : val) : option val :=
       Some (VL [put_result put_tdict (traverse_api tree st p);
                 put_result put_tdict (spec_traverse_api tree st p)])
   | VL [VI 2%Z; VT p] =>
-      Some (VL [put_result put_tuple (traversal_path_info p); VL []])
+      Some (VL [put_result put_tuple (traversal_path_info p); put_spec_tuple (spec_traversal_path_info p)])
   | VL [VI 3%Z; VT p] =>
-      Some (VL [put_result put_tuple (traversal_path p); VL []])
+      Some (VL [put_result put_tuple (traversal_path p); put_spec_tuple (spec_traversal_path p)])
   | VL [VI 4%Z; st; p] =>
       olet st := get_pos st in olet p := get_api_path p in
       Some (VL [put_result put_found (find_resource tree st p);
@@ -466,6 +489,10 @@ Definition run_op (tree : res) (v : val) : option val :=
       let q := mkReq pi md vr in
       Some (VL [put_result put_attrs (router_traversal ([], tree) q);
                 put_result put_attrs (spec_router_traversal ([], tree) q)])
+  | VL [VI 7%Z; t; sp] =>
+      olet t := get_opt route_md_value t in olet sp := get_opt route_md_value sp in
+      let out := VL [VI 9; put_opt_mval t; put_opt_mval sp] in
+      Some (VL [out; out])
   | VL [VI 5%Z; VT seg; VT safe] =>
       Some (VL [put_result (fun t => VL [VI 6; VT t]) (quote_path_segment_safe seg safe); VL []])
   | _ => None
